@@ -17,7 +17,7 @@ BOUNDS = {
     "quick": "induction: period 1..3 x numrec 0..3 with Nsteps and step unbounded (<= 1e9); bounded runs: Nsteps 1..6, period 1..3 steps, numrec 0..3 (all 72 triples via solver-enumerated forks), sparse+dense, with/without particle variable, forward+reversed; positions/velocity symbolic",
     "thorough": "Nsteps 1..12, period 1..5, numrec 0..5 (360 triples), both layouts, both directions",
 }
-ASSUMES = ["output period is a whole number of time steps; duration a whole number of steps", "one particle released at a symbolic step 0..Nsteps-1 (values symbolic; records before the release are empty), constant symbolic velocity, no deaths", "skip_initial symbolic (the initial record is then neither written nor counted)"]
+ASSUMES = ["output period is a whole number of time steps; duration a whole number of steps", "one particle released at a symbolic step 0..Nsteps-1 (values symbolic; records before the release are empty), constant symbolic velocity, one death at a symbolic step (or never)", "skip_initial symbolic (the initial record is then neither written nor counted)"]
 OUTSIDE = "warm start (C08); NetCDF library internals (stub validated against real netCDF4 by the replays)"
 DT = 600
 
@@ -188,18 +188,20 @@ def run(W, p):
     # and the initial record may be switched off
     r0 = W.idx(W.int("release_step", 0, N - 1)) if p.get("late", True) else 0
     skip = W.truth(W.bool("skip_initial")) if p.get("skip", True) else False
+    # the particle may die (IBM, after the move of step kd; kd = N: never): nobody alive must not end the schedule
+    kd = W.idx(W.int("kill_step", r0, N))
     tmp = W.scratch()
     W.table(tmp / "r.rls", ["release_time", "X", "Y", "Z", "w0"], [[W.dt(T0 + sgn * r0 * DT), x0, 10, 5, W.real("w0")]])
     ivars = dict(pid=ovar("i4"), X=ovar("f8"))
     pvars = dict(w0=ovar("f8")) if p["pv"] else None
     cfg = base_config(W, start=T0, stop=T0 + sgn * N * DT, dt=DT, rev=rev, release_file=tmp / "r.rls", u=u,
-                      state=dict(particle_variables=dict(w0=float)),
+                      state=dict(particle_variables=dict(w0=float)), ibm=dict(kill=({kd: {0: True}} if kd < N else {})),
                       output=dict(filename=str(tmp / "out.nc"), output_period=P * DT, instance_variables=ivars, particle_variables=pvars, layout=layout, numrec=R, skip_initial=skip))
     run_main(W, cfg)
     # ---- oracle
     steps = [k * P for k in range(N) if k * P < N and not (skip and k == 0)]
     nrec = len(steps)
-    info = dict(N=N, P=P, R=R, release_step=r0, skip_initial=skip)
+    info = dict(N=N, P=P, R=R, release_step=r0, skip_initial=skip, kill_step=kd)
     if R == 0 or nrec == 0:
         names = ["out.nc"] if R == 0 else ["out_000.nc"]
         split = [nrec]
@@ -257,14 +259,14 @@ def run(W, p):
     if len(recs) == nrec:
         conds = []
         for rec, s_ in zip(recs, steps):
-            if rec is None or len(rec) != (1 if s_ >= r0 else 0):
+            if rec is None or len(rec) != (1 if r0 <= s_ <= kd else 0):
                 conds.append(False)
             elif rec:
                 conds.append(W.eq(rec[0], x0 + u * W.frac(DT, 100) * (s_ - r0)))
         W.prove(W.all(conds) if all(c is not False for c in conds) else False, "record-values", info)
     if p["pv"]:
         W.prove(okpv and W.truth(W.all(pvconds)) if not W.symbolic else (W.all(pvconds) if okpv else False), "particle-vars", info)
-    return (N, P, R, r0, skip)
+    return (N, P, R, r0, skip, kd)
 
 
 def W_var(W, name):
